@@ -458,10 +458,13 @@ def replay_main(path):
         rp = json.load(f)
     check_id = rp['property']
     wd = workdir(check_id + '-replay')
-    job = dict(mode='replay', check=check_id, tier=rp.get('tier', 'quick'), seed=rp['seed'],
-        index=rp.get('index') or 0, salt=rp['knobs'].get('lex_salt') or 0, spec=rp['spec'],
-        timeout=600, out=os.path.join(wd, 'replay.json'))
-    results, errors = run_jobs([job], 1, 630)
+    salts = [rp['knobs'].get('lex_salt') or 0]
+    if isinstance(rp['spec'], dict) and 'multi' in rp['spec']:
+        salts = sorted({m.get('salt', 0) for m in rp['spec']['multi']})
+    jobs = [dict(mode='replay', check=check_id, tier=rp.get('tier', 'quick'), seed=rp['seed'],
+        index=rp.get('index') or 0, salt=s, spec=rp['spec'],
+        timeout=600, out=os.path.join(wd, 'replay%d.json' % s)) for s in salts]
+    results, errors = run_jobs(jobs, len(jobs), 630)
     try:
         os.rmdir(wd)
     except OSError:
@@ -470,9 +473,20 @@ def replay_main(path):
         for e in errors:
             print('[sim] HARNESS ERROR: ' + e)
         return 2
-    res = results[0]
-    vs = [Violation.fromdict(v) for v in res['violations']]
-    kn = list(res['known'])
+    vs, kn, records = [], [], []
+    for res in results:
+        vs.extend(Violation.fromdict(v) for v in res['violations'])
+        kn.extend(res['known'])
+        records.extend(res['records'])
+    mod = load_check(check_id)
+    if hasattr(mod, 'post') and records:
+        known = Known()
+        def emit(clause, key, message, spec, index=None, salt=0):
+            if known.match(check_id, key) is not None:
+                kn.append(key)
+            else:
+                vs.append(Violation(clause, key, message, spec, None, index, salt))
+        mod.post(records, emit, Acc())
     same = [v for v in vs if v.key == rp['key']]
     if same:
         v = same[0]
